@@ -203,3 +203,33 @@ Definition sem_rv_case (i r : sexp) : verdict :=
   | _ => VBad "input shape"
   end.
 Definition run_sem_rv : string -> string := run_cases sem_rv_case.
+
+(* ---------- C14: well-formedness of the implementation's output ---------- *)
+From SCC Require Import Sem.RVWf.
+Definition wf_rv_case (i r : sexp) : verdict :=
+  let '(r, _, _) := split_all r in
+  match i, r with
+  | L [Q _; p; lc; _], L [cs; n; Q text] =>
+      match g_ritems cs with
+      | Some items =>
+          let cs := codes_of items in
+          match asm_wf cs with
+          | Some why => VViol ("class=asm-ill-formed-rv " ++ why)
+          | None =>
+              match branches_in_range cs with
+              | Some l => VViol ("class=rv-branch-out-of-range conditional branch or JAL cannot reach " ++ l)
+              | None =>
+                  let nlab := List.length (defined_labels cs) in
+                  let tag (b : bool) (s : string) := if b then " " ++ s else "" in
+                  VOk ("nt labels" ++ n_to_string (N.log2 (N.of_nat nlab + 1))
+                       ++ tag (has (fun c => match c with LA _ _ => true | _ => false end) cs) "table"
+                       ++ tag (has (fun c => match c with SW _ _ _ => true | _ => false end) cs) "mem"
+                       ++ " kb" ++ z_to_string (code_bytes cs / 1024))
+              end
+          end
+      | None => VBad "rust output unreadable"
+      end
+  | _, L [A "PANIC"; _] => VSkip "implementation panicked (capacity or print)"
+  | _, _ => VBad "case shape"
+  end.
+Definition run_wf_rv : string -> string := run_cases wf_rv_case.
